@@ -136,6 +136,11 @@ def ast_pool(n, seed=0, depth=2):
         [[rm.comp(classes=['k', 'k'])]], [[rm.comp(classes=['k', 'm', 'k'])]],
         [[rm.comp(pseudos=[('not', [[rm.comp(classes=['m', 'm'])]])])]],
         [[rm.comp(pseudos=[('empty',)])]], [[rm.comp(pseudos=[('not', [[rm.comp(pseudos=[('empty',)])]])])]],
+        # element type = (namespace, local name): positional -of-type forms among same-named siblings
+        [[rm.comp(tag='a', pseudos=[('first-of-type',)])]], [[rm.comp(tag='a', pseudos=[('last-of-type',)])]],
+        [[rm.comp(pseudos=[('only-of-type',)])]], [[rm.comp(tag='a', pseudos=[('nth', 'nth-of-type', 0, 2, None)])]],
+        [[rm.comp(pseudos=[('nth', 'nth-last-of-type', 0, 1, None)])]],
+        [[rm.comp(pseudos=[('not', [[rm.comp(pseudos=[('first-of-type',)])]])])]],
     ]
     out = list(fixed)
     while len(out) < n + len(fixed):
